@@ -350,6 +350,33 @@ func FamilyCustom(thorough bool) []*Conv {
 	}
 	out = append(out, fieldFuncConvs("custom", false)...)
 	out = append(out, declaredMethodConvs()...)
+	// useUnderlyingTypeMethods: the function for the underlying types needs a context the method does not have -
+	// a diagnostic, not a silent fall-back to the plain cast (and the call when the context is there)
+	for i, withCtx := range []bool{false, true} {
+		cv := &Conv{
+			ID: fmt.Sprintf("custom/underlying_needs_context/ctx%v/%s", withCtx, formats[i%3]), Family: "custom", Format: formats[i%3],
+			Params: "source []PFXA", Results: "[]PFXB",
+			Decls:     "type PFXA int\ntype PFXB int\ntype PFXCtx struct{ Z int }\nfunc PFXExt(a int, ctxA PFXCtx) int { return 0 }\n",
+			ConvLines: []string{"arg:context:regex ^ctx", "extend PFXExt", "useUnderlyingTypeMethods"},
+			Spec:      &Spec{Custom: map[string]string{"PFXA→PFXB": "PFXExt", "int→int": "PFXExt"}},
+		}
+		if withCtx {
+			cv.Params = "source []PFXA, ctxA PFXCtx"
+		} else {
+			cv.ExpectFail, cv.FailNote = true, "the underlying-type function needs a context the calling method does not have"
+		}
+		out = append(out, cv)
+	}
+	// a pattern selects exported and unexported functions alike when the code is emitted into their package
+	for _, pos := range []struct{ name, src, tgt string }{{"top", "PFXA", "PFXB"}, {"elem", "[]PFXA", "[]PFXB"}, {"field", "struct{ V PFXA; S string }", "struct{ V PFXB; S bool }"}} {
+		out = append(out, &Conv{
+			ID: "custom/extend_regex_unexported/" + pos.name + "/variable", Family: "custom", Format: "variable",
+			Params: "source " + pos.src, Results: pos.tgt,
+			Decls:     "type PFXA int\ntype PFXB int\nfunc pfxConvA(a PFXA) PFXB { return 0 }\nfunc PFXConvS(a string) bool { return false }\nfunc pfxOther(a PFXA) PFXB { return 1 }\n",
+			ConvLines: []string{"extend (pfx|PFX)Conv.*"},
+			Spec:      &Spec{Custom: map[string]string{"PFXA→PFXB": "pfxConvA", "string→bool": "PFXConvS"}},
+		})
+	}
 	return out
 }
 
@@ -452,6 +479,31 @@ func FamilyError(thorough bool) []*Conv {
 		}
 		_ = fi
 		out = append(out, cv)
+	}
+	// update methods: the error of a failing function below them carries the update method's part of the location
+	for fi, f := range []string{"struct", "function", "variable"} {
+		for _, wrap := range []string{"", "_wrap", "_using"} {
+			cv := &Conv{
+				ID: "error/extend/update_method/" + f + wrap, Family: "error", Format: f,
+				Params: "source PFXIn, target *PFXOut", Results: "error",
+				Decls: "type PFXA int\ntype PFXB int\nfunc PFXExt(a PFXA) (PFXB, error) { return 0, nil }\n" +
+					"type PFXItem struct{ Qty PFXA }\ntype PFXItemT struct{ Qty PFXB }\ntype PFXIn struct {\n\tAge PFXA\n\tTags map[string]PFXA\n\tItems []PFXItem\n}\ntype PFXOut struct {\n\tAge PFXB\n\tTags map[string]PFXB\n\tItems []PFXItemT\n}\n",
+				ConvLines:   []string{"extend PFXExt"},
+				MethodLines: []string{"update target"},
+				Spec:        &Spec{Custom: map[string]string{"PFXA→PFXB": "PFXExt"}, Update: &UpdateSpec{}},
+				Bounds:      &Bounds{MaxSlice: 2, MaxMap: 1, RecDepth: 1},
+			}
+			switch wrap {
+			case "_wrap":
+				cv.Spec.WrapMode = "wrap"
+				cv.ConvLines = append(cv.ConvLines, "wrapErrors")
+			case "_using":
+				cv.Spec.WrapMode = "using"
+				cv.ConvLines = append(cv.ConvLines, "wrapErrorsUsing corpus/perr")
+			}
+			_ = fi
+			out = append(out, cv)
+		}
 	}
 	// a declared method without error result cannot use a fallible function: must fail
 	for _, cl := range leaves[:2] {
